@@ -586,10 +586,16 @@ def r9_restore_depth(ctx, rule):
     c02.push_unconditional(ctx, rule)
 
 
+def _exact_float(ctx, rule):
+    from . import c01 as _c01
+    return _c01.r9_exact_float_discipline(ctx, rule)
+
+
 def rules(tier):
     return [('C08.R1', r1_uuid_gate), ('C08.R2', r2_region_agreement), ('C08.R3', r3_canonical_descent),
             ('C08.R4', r4_saved_position), ('C08.R5', r5_sav_keys), ('C08.R6', c01.r5_successor),
-            ('C08.R7', c01.r4_prob_pt_coupling), ('C08.R8', c01.r1_heap_order), ('C08.R9', r9_restore_depth)]
+            ('C08.R7', c01.r4_prob_pt_coupling), ('C08.R8', c01.r1_heap_order), ('C08.R9', r9_restore_depth),
+            ('C08.R10', _exact_float)]
 
 
 META = {
